@@ -67,7 +67,20 @@ impl Hasher for TH {
     }
 }
 
+/// the context the scripted caller supplies: a deadline 7 s after `base` and a trace context with unequal halves
+fn caller_ctx(base: std::time::Instant) -> context::Context {
+    let mut c = context::current();
+    c.deadline = base + std::time::Duration::from_secs(7);
+    c.trace_context = tarpc::trace::Context {
+        trace_id: tarpc::trace::TraceId::from((0x1122_3344_5566_7788u128 << 64) | 0x99aa),
+        span_id: tarpc::trace::SpanId::from(0x4242u64),
+        sampling_decision: tarpc::trace::SamplingDecision::Sampled,
+    };
+    c
+}
+
 struct ScriptStub {
+    base: std::time::Instant,
     /// which RpcError an "err" entry of the script produces: "deadline" | "shutdown" | "server"
     errkind: String,
     script: Vec<String>,
@@ -77,8 +90,14 @@ struct ScriptStub {
 impl Stub for ScriptStub {
     type Req = Arc<u64>;
     type Resp = u64;
-    async fn call(&self, _ctx: context::Context, req: Arc<u64>) -> Result<u64, RpcError> {
+    async fn call(&self, ctx: context::Context, req: Arc<u64>) -> Result<u64, RpcError> {
         let n = self.n.fetch_add(1, Ordering::SeqCst) + 1;
+        // every attempt must carry the caller's context: its deadline and its trace context
+        let want = caller_ctx(self.base);
+        let dlsame = ctx.deadline == want.deadline;
+        let trsame = ctx.trace_context.trace_id == want.trace_context.trace_id
+            && ctx.trace_context.span_id == want.trace_context.span_id
+            && ctx.trace_context.sampling_decision == want.trace_context.sampling_decision;
         let ptr = Arc::as_ptr(&req) as usize;
         let same = {
             let mut f = self.first.lock().unwrap();
@@ -91,7 +110,7 @@ impl Stub for ScriptStub {
             }
         };
         let r = self.script.get((n - 1) as usize).cloned().unwrap_or_else(|| "ok".to_string());
-        emit("Attempt", json!({"n": n, "req": *req, "same": same, "res": r, "errkind": self.errkind}));
+        emit("Attempt", json!({"n": n, "req": *req, "same": same, "res": r, "errkind": self.errkind, "dlsame": dlsame, "trsame": trsame}));
         if r == "ok" {
             Ok(n as u64)
         } else {
@@ -181,7 +200,8 @@ fn run_one(s: &Sched) {
                 a.iter().map(|p| (p[0].as_bool().unwrap_or(false), p[1].as_bool().unwrap_or(false))).collect()
             }).unwrap_or_default();
             let errkind = cfg["errkind"].as_str().unwrap_or("deadline").to_string();
-            let stub = ScriptStub { errkind, script, n: AtomicU32::new(0), first: Mutex::new(None) };
+            let base = std::time::Instant::now();
+            let stub = ScriptStub { base, errkind, script, n: AtomicU32::new(0), first: Mutex::new(None) };
             let pol = policy.clone();
             let retry = Retry::new(stub, move |res: &Result<u64, RpcError>, attempt: u32| {
                 let (on_ok, on_err) = pol.get((attempt as usize).wrapping_sub(1)).cloned().unwrap_or((false, false));
@@ -189,7 +209,7 @@ fn run_one(s: &Sched) {
                 emit("Policy", json!({"n": attempt, "res": if res.is_ok() { "ok" } else { "err" }, "d": d}));
                 d
             });
-            let r = exec::catch(|| block_on(retry.call(context::current(), 77u64)));
+            let r = exec::catch(|| block_on(retry.call(caller_ctx(base), 77u64)));
             match r {
                 Ok(Ok(v)) => emit("Return", json!({"res": "ok", "v": v})),
                 Ok(Err(_)) => emit("Return", json!({"res": "err", "v": 0})),
